@@ -1,4 +1,5 @@
-(* Theorems about the Gallina translation of security/crypto/bitfield.go index / id. *)
+(* Theorems about the Gallina translation of security/crypto/bitfield.go: index / id, and the Bitfield methods
+   isSet / set / extend / Add / Contains / Len / Bytes (second half of the file). *)
 From Coq Require Import ZArith NArith Lia String.
 From HS Require Import Base.GoSem Base.GoSemProofs IDSet.BitfieldModel.
 From HSGen Require Import Code.
@@ -65,4 +66,362 @@ Qed.
 Print Assumptions C19_gen_index_inverts_id.
 
 Example C19_gen_runs : (index 1, index 8, index 9, index 300, id_ 37 3) = (Val (0, 0), Val (0, 7), Val (1, 0), Val (37, 3), Val 300).
+Proof. vm_compute. reflexivity. Qed.
+
+(* ================================================================================================================ *)
+(* The Bitfield methods isSet / set / extend / Add / Contains / Len / Bytes as translated from the checked tree.
+   Representation: the translated state is (data : list Z, len : Z); a model bitfield (bytes as N, cached
+   cardinality as nat) is encoded by [enc]. Every translated method returns the state followed by its results. *)
+From Coq Require Import List Bool ZifyBool ZifyNat ZifyN.
+From HS Require Import Base.Prelude IDSet.BitfieldProofs.
+Import ListNotations.
+Open Scope Z_scope.
+
+Definition dz (d : list N) : list Z := map Z.of_N d.
+Definition enc (bf : bitfield) : list Z * Z := (dz (bf_data bf), Z.of_nat (bf_len bf)).
+
+Lemma dz_length d : length (dz d) = length d.
+Proof. apply map_length. Qed.
+
+Lemma dz_nth d b : nth b (dz d) 0 = Z.of_N (nth b d 0%N).
+Proof. unfold dz. change 0 with (Z.of_N 0). apply map_nth. Qed.
+
+Lemma dz_upd d b f y : (b < length d)%nat -> y = f (nth b d 0%N) ->
+  GoSem.upd_nth (dz d) b (Z.of_N y) = dz (BitfieldModel.upd_nth d b f).
+Proof.
+  intros H ->. revert b H. induction d as [|a r IH]; intros b H; cbn [length] in H; [lia|].
+  destruct b as [|b]; cbn [dz map GoSem.upd_nth BitfieldModel.upd_nth nth]; [reflexivity|].
+  f_equal. apply IH. lia.
+Qed.
+
+Lemma dz_extend d n : dz d ++ repeat 0 n = dz (extend d n).
+Proof.
+  unfold extend, dz. rewrite map_app. f_equal.
+  induction n as [|n IH]; cbn [repeat map]; [reflexivity | now rewrite IH].
+Qed.
+
+Lemma bytes_ok_nth d b : bytes_ok d -> (nth b d 0 < 256)%N.
+Proof.
+  intros H. destruct (Nat.lt_ge_cases b (length d)) as [L|L].
+  - unfold bytes_ok in H. rewrite Forall_forall in H. apply H, nth_In, L.
+  - rewrite nth_overflow by assumption. lia.
+Qed.
+
+Lemma bytes_ok_extend d n : bytes_ok d -> bytes_ok (extend d n).
+Proof.
+  intros H. unfold bytes_ok, extend. apply Forall_app. split; [assumption|].
+  apply Forall_forall. intros x Hx. apply repeat_spec in Hx. subst x. lia.
+Qed.
+
+(* the two byte-level facts, by a sweep over the 256 byte values and the 8 bit positions *)
+Definition bytes256 : list N := map N.of_nat (seq 0 256).
+Lemma in_bytes256 x : (x < 256)%N -> In x bytes256.
+Proof. intros H. apply in_map_iff. exists (N.to_nat x). split; [lia|]. apply in_seq. lia. Qed.
+
+Definition sweep (P : N -> N -> bool) : bool := forallb (fun x => forallb (P x) bits8) bytes256.
+Lemma sweep_all P : sweep P = true -> forall x k, (x < 256)%N -> (k < 8)%N -> P x k = true.
+Proof.
+  intros H x k Hx Hk. unfold sweep in H. rewrite forallb_forall in H.
+  specialize (H x (in_bytes256 x Hx)). rewrite forallb_forall in H. apply H, In_bits8, Hk.
+Qed.
+
+Lemma byte_test_bit x k : (x < 256)%N -> (k < 8)%N ->
+  negb (wrap U8 (Z.land (Z.of_N x) (wrap U8 (Z.shiftl 1 (Z.of_N k)))) =? 0) = N.testbit x k.
+Proof.
+  intros Hx Hk. apply eqb_prop.
+  apply (sweep_all (fun x k => Bool.eqb (negb (wrap U8 (Z.land (Z.of_N x) (wrap U8 (Z.shiftl 1 (Z.of_N k)))) =? 0)) (N.testbit x k)));
+    [vm_compute; reflexivity | assumption | assumption].
+Qed.
+
+Lemma byte_set_bit x k : (x < 256)%N -> (k < 8)%N ->
+  wrap U8 (Z.lor (Z.of_N x) (wrap U8 (Z.shiftl 1 (Z.of_N k)))) = Z.of_N (N.lor x (N.shiftl 1 k)).
+Proof.
+  intros Hx Hk. apply Z.eqb_eq.
+  apply (sweep_all (fun x k => wrap U8 (Z.lor (Z.of_N x) (wrap U8 (Z.shiftl 1 (Z.of_N k)))) =? Z.of_N (N.lor x (N.shiftl 1 k))));
+    [vm_compute; reflexivity | assumption | assumption].
+Qed.
+
+(* isSet: for every byte string, every position inside it and every bit index >= 0 (from 8 on, the byte-typed
+   1 << bitIdx is 0 in Go and the model's N.testbit of a byte is false) ... *)
+Theorem C19_gen_isSet_is_model :
+  forall (d : list N) (l : Z) (b : nat) (k : N), bytes_ok d -> (b < length d)%nat ->
+  Bitfield_isSet (dz d) l (Z.of_nat b) (Z.of_N k) = Val (dz d, l, is_set d b k).
+Proof.
+  intros d l b k Hd Hb. unfold Bitfield_isSet. cbn [bind].
+  rewrite go_index_z_in by (rewrite dz_length; lia). cbn [bind]. rewrite Nat2Z.id, dz_nth.
+  rewrite go_shl_general by lia. unfold go_and, go_ne. cbn [bind].
+  do 2 f_equal. unfold is_set. pose proof (bytes_ok_nth d b Hd) as Hx.
+  destruct (N.lt_ge_cases k 8) as [Hk|Hk].
+  - apply byte_test_bit; assumption.
+  - rewrite wrap_shiftl_high by (simpl; lia). rewrite Z.land_0_r. change (wrap U8 0) with 0. cbn [Z.eqb negb].
+    symmetry. rewrite <- (N.mod_small (nth b d 0%N) (2 ^ 8)) by (change (2 ^ 8)%N with 256%N; assumption).
+    apply N.mod_pow2_bits_high. assumption.
+Qed.
+Print Assumptions C19_gen_isSet_is_model.
+
+(* ... and it panics exactly outside that domain: byte index out of range, or a negative shift count. *)
+Theorem C19_gen_isSet_panics_outside :
+  forall (d : list Z) (l b k : Z), ~ 0 <= b < Z.of_nat (length d) \/ k < 0 ->
+  exists why, Bitfield_isSet d l b k = GoSem.Panic why.
+Proof.
+  intros d l b k H. unfold Bitfield_isSet. cbn [bind].
+  destruct (Z_le_dec 0 b) as [H0|H0]; [destruct (Z_lt_dec b (Z.of_nat (length d))) as [H1|H1]|].
+  - rewrite go_index_z_in by lia. cbn [bind]. rewrite go_shl_negative by lia. eexists. reflexivity.
+  - rewrite go_index_z_out by lia. eexists. reflexivity.
+  - rewrite go_index_z_out by lia. eexists. reflexivity.
+Qed.
+Print Assumptions C19_gen_isSet_panics_outside.
+
+Theorem C19_gen_extend_is_model :
+  forall (d : list N) (l : Z) (n : nat),
+  Bitfield_extend (dz d) l (Z.of_nat n) = Val (dz (extend d n), l).
+Proof.
+  intros d l n. unfold Bitfield_extend. cbn [bind]. rewrite go_extend_nonneg by lia. cbn [bind].
+  rewrite Nat2Z.id, dz_extend. reflexivity.
+Qed.
+Print Assumptions C19_gen_extend_is_model.
+
+Theorem C19_gen_extend_negative_panics :
+  forall (d : list Z) (l n : Z), n < 0 -> exists why, Bitfield_extend d l n = GoSem.Panic why.
+Proof.
+  intros d l n H. unfold Bitfield_extend, go_extend. cbn [bind].
+  destruct (Z.ltb_spec n 0); [|lia]. eexists. reflexivity.
+Qed.
+Print Assumptions C19_gen_extend_negative_panics.
+
+(* set: positions inside the byte string, bit index 0..7, and ANY cached length l of type int that can still be
+   incremented (also a negative one): the bytes are the model's, and l moves by what the model adds to a
+   cached length of 0 *)
+Theorem C19_gen_set_is_model :
+  forall (d : list N) (l : Z) (b : nat) (k : N),
+  bytes_ok d -> (b < length d)%nat -> (k < 8)%N ->
+  - 9223372036854775808 <= l < 9223372036854775807 ->
+  Bitfield_set (dz d) l (Z.of_nat b) (Z.of_N k) =
+  Val (dz (bf_data (set_bit (mkBF d 0) b k)), l + Z.of_nat (bf_len (set_bit (mkBF d 0) b k))).
+Proof.
+  intros d l b k Hd Hb Hk Hl. unfold Bitfield_set. cbn [bind].
+  rewrite C19_gen_isSet_is_model by assumption. cbn [bind].
+  unfold set_bit. cbn [bf_data bf_len]. pose proof (bytes_ok_nth d b Hd) as Hx.
+  destruct (is_set d b k); cbn [negb bind].
+  - rewrite go_shl_general by lia. cbn [bind]. rewrite go_index_z_in by (rewrite dz_length; lia). cbn [bind].
+    unfold go_or. cbn [bind]. rewrite go_set_index_in by (rewrite dz_length; lia). cbn [bind].
+    rewrite Nat2Z.id, dz_nth, byte_set_bit by assumption.
+    f_equal. apply f_equal2; [apply dz_upd; [assumption | reflexivity] | lia].
+  - unfold go_add. cbn [bind]. rewrite wrap_I64 by lia.
+    rewrite go_shl_general by lia. cbn [bind]. rewrite go_index_z_in by (rewrite dz_length; lia). cbn [bind].
+    unfold go_or. cbn [bind]. rewrite go_set_index_in by (rewrite dz_length; lia). cbn [bind].
+    rewrite Nat2Z.id, dz_nth, byte_set_bit by assumption.
+    f_equal. apply f_equal2; [apply dz_upd; [assumption | reflexivity] | lia].
+Qed.
+Print Assumptions C19_gen_set_is_model.
+
+Lemma set_bit_offset d n b k :
+  set_bit (mkBF d n) b k = mkBF (bf_data (set_bit (mkBF d 0) b k)) (n + bf_len (set_bit (mkBF d 0) b k)).
+Proof. unfold set_bit. cbn [bf_data bf_len]. destruct (is_set d b k); f_equal; lia. Qed.
+
+(* the same in terms of an encoded model value *)
+Lemma set_enc (bf : bitfield) (b : nat) (k : N) :
+  bytes_ok (bf_data bf) -> (b < length (bf_data bf))%nat -> (k < 8)%N ->
+  Z.of_nat (bf_len bf) < 9223372036854775807 ->
+  Bitfield_set (dz (bf_data bf)) (Z.of_nat (bf_len bf)) (Z.of_nat b) (Z.of_N k) = Val (enc (set_bit bf b k)).
+Proof.
+  intros Hd Hb Hk Hl. destruct bf as [d n]. cbn [bf_data bf_len] in *.
+  rewrite C19_gen_set_is_model by (assumption || lia). rewrite (set_bit_offset d n).
+  unfold enc. cbn [bf_data bf_len]. do 2 f_equal. lia.
+Qed.
+
+(* Add on the whole id range 1..2^32-1, any byte string whose length fits in an int, any cached length of type
+   int that can still be incremented *)
+Theorem C19_gen_Add_is_model :
+  forall (d : list N) (l : Z) (i : N), (1 <= i < 4294967296)%N -> bytes_ok d ->
+  Z.of_nat (length d) < 9223372036854775808 -> - 9223372036854775808 <= l < 9223372036854775807 ->
+  exists bf', add i (mkBF d 0) = Prelude.Ok bf' /\
+    Bitfield_Add (dz d) l (Z.of_N i) = Val (dz (bf_data bf'), l + Z.of_nat (bf_len bf')).
+Proof.
+  intros d l i Hi Hd HL Hn.
+  rewrite add_ok by lia. eexists. split; [reflexivity|]. cbn [bf_data bf_len].
+  unfold Bitfield_Add. cbn [bind]. rewrite C19_gen_index_is_model by lia. cbn [bind].
+  unfold go_len, go_le. cbn [bind]. rewrite dz_length.
+  assert (Z.of_N (byte_idx_n i) = Z.of_nat (byte_idx i)) as Eb by (unfold byte_idx; lia).
+  assert (Z.of_N (byte_idx_n i) < 536870912) as Bb by (unfold byte_idx_n; lia).
+  pose proof (bit_idx_lt i) as Hk.
+  unfold grown. destruct (Nat.leb_spec (length d) (byte_idx i)) as [L|L].
+  - destruct (Z.leb_spec (Z.of_nat (length d)) (Z.of_N (byte_idx_n i))) as [_|L']; [|lia]. cbn [bind].
+    unfold go_add, go_sub. cbn [bind]. rewrite (wrap_I64 (Z.of_N (byte_idx_n i) + 1)) by lia. rewrite wrap_I64 by lia.
+    replace (Z.of_N (byte_idx_n i) + 1 - Z.of_nat (length d)) with (Z.of_nat (byte_idx i + 1 - length d)) by lia.
+    rewrite C19_gen_extend_is_model. cbn [bind]. rewrite Eb.
+    rewrite C19_gen_set_is_model; [reflexivity | now apply bytes_ok_extend | rewrite extend_length; lia | assumption | assumption].
+  - destruct (Z.leb_spec (Z.of_nat (length d)) (Z.of_N (byte_idx_n i))) as [L'|_]; [lia|]. cbn [bind]. rewrite Eb.
+    rewrite C19_gen_set_is_model; [reflexivity | assumption..].
+Qed.
+Print Assumptions C19_gen_Add_is_model.
+
+Lemma Add_enc (bf : bitfield) (i : N) :
+  (1 <= i < 4294967296)%N -> bytes_ok (bf_data bf) ->
+  Z.of_nat (length (bf_data bf)) < 9223372036854775808 -> Z.of_nat (bf_len bf) < 9223372036854775807 ->
+  exists bf', add i bf = Prelude.Ok bf' /\
+    Bitfield_Add (dz (bf_data bf)) (Z.of_nat (bf_len bf)) (Z.of_N i) = Val (enc bf').
+Proof.
+  intros Hi Hd HL Hn. destruct bf as [d n]. cbn [bf_data bf_len] in *.
+  destruct (C19_gen_Add_is_model d (Z.of_nat n) i Hi Hd HL ltac:(lia)) as [bf0 [E0 G0]].
+  rewrite add_ok in E0 by lia. injection E0 as <-. cbn [bf_data bf_len] in G0.
+  rewrite add_ok by lia. eexists. split; [reflexivity|]. cbn [bf_data bf_len].
+  rewrite G0, (set_bit_offset (grown d i) n). unfold enc. cbn [bf_data bf_len]. do 2 f_equal. lia.
+Qed.
+
+(* Add(0): the model says Panic; the translated code panics on every state (after growing an empty field to one
+   byte, isSet evaluates 1 << -1) *)
+Theorem C19_gen_Add_zero_panics :
+  forall (bf : bitfield) (d : list Z) (l : Z),
+  add 0 bf = Prelude.Panic /\ exists why, Bitfield_Add d l 0 = GoSem.Panic why.
+Proof.
+  intros bf d l. split; [reflexivity|].
+  unfold Bitfield_Add. cbn [bind]. change (index 0) with (Val (0, -1) : res (Z * Z)). cbn [bind].
+  unfold go_len, go_le. cbn [bind].
+  destruct d as [|z r].
+  - eexists. vm_compute. reflexivity.
+  - cbn [length]. destruct (Z.leb_spec (Z.of_nat (S (length r))) 0) as [L|_]; [lia|]. cbn [bind].
+    unfold Bitfield_set. cbn [bind].
+    destruct (C19_gen_isSet_panics_outside (z :: r) l 0 (-1)) as [why E]; [right; lia|].
+    rewrite E. eexists. reflexivity.
+Qed.
+Print Assumptions C19_gen_Add_zero_panics.
+
+(* Contains on ids 0..2^32-1 (0 included: false), any byte string, any cached length *)
+Theorem C19_gen_Contains_is_model :
+  forall (bf : bitfield) (l : Z) (i : N), (i < 4294967296)%N -> bytes_ok (bf_data bf) ->
+  exists r, contains i bf = Prelude.Ok r /\
+    Bitfield_Contains (dz (bf_data bf)) l (Z.of_N i) = Val (dz (bf_data bf), l, r).
+Proof.
+  intros [d n] l i Hi Hd. cbn [bf_data]. unfold contains. cbn [bf_data].
+  destruct (N.eqb_spec i 0) as [->|Hz].
+  - eexists. split; reflexivity.
+  - unfold Bitfield_Contains, go_eq. cbn [bind].
+    destruct (Z.eqb_spec (Z.of_N i) 0) as [E|_]; [lia|]. cbn [bind].
+    rewrite C19_gen_index_is_model by lia. cbn [bind].
+    unfold go_len, go_le. cbn [bind]. rewrite dz_length, beyond_leb.
+    assert (Z.of_N (byte_idx_n i) = Z.of_nat (byte_idx i)) as Eb by (unfold byte_idx; lia).
+    destruct (Nat.leb_spec (length d) (byte_idx i)) as [L|L].
+    + destruct (Z.leb_spec (Z.of_nat (length d)) (Z.of_N (byte_idx_n i))) as [_|L']; [|lia]. cbn [bind].
+      eexists. split; reflexivity.
+    + destruct (Z.leb_spec (Z.of_nat (length d)) (Z.of_N (byte_idx_n i))) as [L'|_]; [lia|]. cbn [bind].
+      rewrite Eb, C19_gen_isSet_is_model by assumption. cbn [bind]. eexists. split; reflexivity.
+Qed.
+Print Assumptions C19_gen_Contains_is_model.
+
+Theorem C19_gen_Contains_zero_is_false :
+  forall (d : list Z) (l : Z), Bitfield_Contains d l 0 = Val (d, l, false).
+Proof. reflexivity. Qed.
+Print Assumptions C19_gen_Contains_zero_is_false.
+
+Theorem C19_gen_Len_Bytes_are_model :
+  forall bf : bitfield,
+  Bitfield_Len (dz (bf_data bf)) (Z.of_nat (bf_len bf)) = Val (dz (bf_data bf), Z.of_nat (bf_len bf), Z.of_nat (len bf)) /\
+  Bitfield_Bytes (dz (bf_data bf)) (Z.of_nat (bf_len bf)) = Val (dz (bf_data bf), Z.of_nat (bf_len bf), dz (bytes bf)).
+Proof. intros bf. split; reflexivity. Qed.
+Print Assumptions C19_gen_Len_Bytes_are_model.
+
+(* ---- sequences of insertions on the translated code ---- *)
+Import GoNotations.
+
+Fixpoint gen_adds (ids : list Z) (st : list Z * Z) : res (list Z * Z) :=
+  match ids with
+  | nil => Val st
+  | i :: r => st' <- Bitfield_Add (fst st) (snd st) i ;; gen_adds r st'
+  end.
+
+(* what the induction carries: the cached length is the number of enumerated ids, bytes are bytes, and the byte
+   string is no longer than the largest id needs (2^32 / 8 bytes) *)
+Definition fits (bf : bitfield) : Prop :=
+  inv bf /\ bytes_ok (bf_data bf) /\ Z.of_nat (length (bf_data bf)) <= 536870912.
+
+Lemma filter_length_le {A} (p : A -> bool) l : (length (filter p l) <= length l)%nat.
+Proof. induction l as [|a l IH]; cbn [filter length]; [lia|]. destruct (p a); cbn [length]; lia. Qed.
+
+Lemma ids_from_length j d : (length (ids_from j d) <= 8 * length d)%nat.
+Proof.
+  revert j. induction d as [|b r IH]; intros j; cbn [ids_from length]; [lia|].
+  rewrite app_length. specialize (IH (S j)). unfold byte_ids. rewrite map_length.
+  pose proof (filter_length_le (N.testbit b) bits8) as F. change (length bits8) with 8%nat in F. lia.
+Qed.
+
+Lemma fits_len bf : fits bf -> Z.of_nat (bf_len bf) <= 4294967296.
+Proof.
+  intros [I [_ L]]. unfold inv, elements in I. rewrite I.
+  pose proof (ids_from_length 0 (bf_data bf)). lia.
+Qed.
+
+Lemma add_fits i bf bf' : (1 <= i < 4294967296)%N -> fits bf -> add i bf = Prelude.Ok bf' -> fits bf'.
+Proof.
+  intros Hi [I [B L]] E. split; [|split].
+  - apply (add_inv i bf bf'); [lia | assumption..].
+  - apply (add_bytes_ok i bf bf'); [lia | assumption..].
+  - rewrite (add_data i bf bf') by (lia || assumption). rewrite upd_nth_length. unfold grown.
+    destruct (Nat.leb_spec (length (bf_data bf)) (byte_idx i)); [|assumption].
+    rewrite extend_length. unfold byte_idx, byte_idx_n in *. lia.
+Qed.
+
+Lemma gen_adds_is_model ids : forall bf,
+  Forall (fun i => (1 <= i < 4294967296)%N) ids -> fits bf ->
+  exists bf', adds ids bf = Prelude.Ok bf' /\ fits bf' /\ gen_adds (map Z.of_N ids) (enc bf) = Val (enc bf').
+Proof.
+  induction ids as [|i r IH]; intros bf Hf F; cbn [adds gen_adds map].
+  - exists bf. auto.
+  - inversion Hf as [|? ? Hi Hr]; subst. pose proof (fits_len bf F) as Hl. destruct F as [I [B L]].
+    destruct (Add_enc bf i Hi B ltac:(lia) ltac:(lia)) as [bf1 [E1 G1]].
+    rewrite E1. change (fst (enc bf)) with (dz (bf_data bf)). change (snd (enc bf)) with (Z.of_nat (bf_len bf)). rewrite G1. cbn [bind].
+    apply IH; [assumption|]. apply (add_fits i bf bf1); [assumption | repeat split; assumption | assumption].
+Qed.
+
+(* The property's set clause on the translated code: starting from the empty Bitfield, after the translated Add has
+   run on any list of ids in 1..2^32-1 (it never panics and never indexes out of range), the translated Contains
+   answers, for every id 0..2^32-1, exactly whether the id is in the list, and the translated len field (what
+   the translated Len returns) is the number of distinct ids of the list. *)
+Theorem C19_gen_bitfield_code_is_id_set :
+  forall (ids : list N) (x : N),
+  Forall (fun i => (1 <= i < 4294967296)%N) ids -> (x < 4294967296)%N ->
+  exists d l,
+    gen_adds (map Z.of_N ids) (nil, 0) = Val (d, l) /\
+    Bitfield_Contains d l (Z.of_N x) = Val (d, l, if in_dec N.eq_dec x ids then true else false) /\
+    l = Z.of_nat (length (nodup N.eq_dec ids)) /\
+    Bitfield_Len d l = Val (d, l, l).
+Proof.
+  intros ids x Hf Hx.
+  assert (fits empty_bf) as F0.
+  { split; [reflexivity|]. split; [constructor | cbn; lia]. }
+  destruct (gen_adds_is_model ids empty_bf Hf F0) as [bf [E [F G]]].
+  assert (Forall (fun i => (1 <= i)%N) ids) as Hf1.
+  { eapply Forall_impl; [|exact Hf]. cbv beta. intros; lia. }
+  destruct (history_ideal [] ids Hf1) as [bf2 [E2 [HC [_ [HL _]]]]].
+  change (from_bytes []) with empty_bf in E2. rewrite E in E2. injection E2 as <-.
+  change (elements (from_bytes [])) with (@nil N) in HL. rewrite app_nil_r in HL.
+  exists (dz (bf_data bf)), (Z.of_nat (bf_len bf)). split; [exact G|]. split; [|split; [|reflexivity]].
+  - destruct F as [_ [B _]].
+    destruct (C19_gen_Contains_is_model bf (Z.of_nat (bf_len bf)) x Hx B) as [r [Er Gr]]. rewrite Gr.
+    do 2 f_equal.
+    assert (forall y, ~ mem [] y) as Hm.
+    { intros y [_ Hy]. destruct (byte_idx y); cbn [nth] in Hy; rewrite N.bits_0 in Hy; discriminate. }
+    destruct (N.eq_dec x 0) as [->|Hx0].
+    + unfold contains in Er. cbn in Er. injection Er as <-.
+      destruct (in_dec N.eq_dec 0%N ids) as [Hin|_]; [|reflexivity].
+      rewrite Forall_forall in Hf. specialize (Hf _ Hin). lia.
+    + specialize (HC x ltac:(lia)).
+      destruct (in_dec N.eq_dec x ids) as [Hin|Hin]; destruct r; try reflexivity.
+      * assert (contains x bf = Prelude.Ok true) as Et by (apply HC; now left). congruence.
+      * apply HC in Er. destruct Er as [?|Hy]; [contradiction | now apply Hm in Hy].
+  - unfold len in HL. now rewrite HL.
+Qed.
+Print Assumptions C19_gen_bitfield_code_is_id_set.
+
+Example C19_gen_bitfield_runs :
+  (st <- gen_adds (1 :: 9 :: 300 :: 9 :: nil) (nil, 0) ;;
+   '(_, _, c1) <- Bitfield_Contains (fst st) (snd st) 1 ;;
+   '(_, _, c2) <- Bitfield_Contains (fst st) (snd st) 2 ;;
+   '(_, _, c9) <- Bitfield_Contains (fst st) (snd st) 9 ;;
+   '(_, _, c300) <- Bitfield_Contains (fst st) (snd st) 300 ;;
+   '(_, _, c301) <- Bitfield_Contains (fst st) (snd st) 301 ;;
+   '(_, _, c0) <- Bitfield_Contains (fst st) (snd st) 0 ;;
+   '(_, _, n) <- Bitfield_Len (fst st) (snd st) ;;
+   Val (length (fst st), nth 0 (fst st) 0, nth 1 (fst st) 0, nth 37 (fst st) 0, n, (c1, c2, c9, c300, c301, c0)))
+  = Val (38%nat, 1, 1, 8, 3, (true, false, true, true, false, false)).
 Proof. vm_compute. reflexivity. Qed.
